@@ -236,7 +236,7 @@ example :
 open LB in
 /-- **A pair of streams refines two byte queues.** From the memory createBufferManager lays out (any size classes): for
     EVERY sequence of WriteBytes, WriteByte, Flush (shared-memory transport, or fall-back once the allocator ran dry - the
-    stream then stays in fall-back), readMore, ReadBytes, Peek, Discard, ReleasePreviousRead and Close (which empties the
+    stream then stays in fall-back), readMore, ReadBytes, ReadString, Read, Peek, Discard, ReleasePreviousRead and Close (which empties the
     closing end's own buffers and leaves the other direction's flushed bytes alone) calls on either end, in any
     order - any number of messages composed, in flight and half read at the same time, in both directions - in which every
     reader call finds its bytes buffered (what Stream.readMore waits for): each ReadBytes / Peek returns exactly the next
@@ -281,6 +281,15 @@ example :
     (LB.prunOut s0 ops).map (·.2) = some (LB.qrunOut {} ops).2 ∧
     (LB.qrunOut {} ops).2 = [[], [], [], [], [], [], [], [1, 2, 3, 4, 5, 6, 7, 8, 9], [], [], [], [50, 51], [50, 51], [],
       [10, 11, 12, 13, 21, 22, 23, 31], []] := by
+  decide
+
+-- ReadString and Read (with the requested bytes buffered) across slice and message boundaries
+example :
+    let s0 : LB.PSys := { m := LB.Mem.create [(4, 6)] }
+    let ops : List LB.POp := [.write false [1, 2, 3, 4, 5, 6], .flush false, .write false [7, 8, 9], .flush false, .more true,
+      .readString true 5, .readInto true 3, .readBytes true 1]
+    (LB.prunOut s0 ops).map (·.2) = some (LB.qrunOut {} ops).2 ∧
+    (LB.qrunOut {} ops).2 = [[], [], [], [], [], [1, 2, 3, 4, 5], [6, 7, 8], [9]] := by
   decide
 
 -- Close in the middle: b closes while a message is in flight towards it and it has composed bytes; a's own unread data stays
